@@ -170,7 +170,7 @@ def run(prop, tier, seed):
     return r
 
 
-def search(prop, seed, failures):
+def search(prop, seed, failures, tier="quick"):
     """concrete-input searcher against the real crate (replay/): returns {'input': ..} or {'input': None}"""
     exe = os.path.join(VERIF, "build", "replay-target", "release", "search")
     rdir = os.path.join(VERIF, "replay")
@@ -195,11 +195,18 @@ def search(prop, seed, failures):
         b = subprocess.run(["cargo", "build", "--release", "--bin", "search"], cwd=rdir, env=env, capture_output=True, text=True, timeout=600)
         if b.returncode != 0:
             return {"input": None, "note": "searcher did not build: " + b.stderr[-800:]}
-        p = subprocess.run([exe, prop, str(seed)], capture_output=True, text=True, timeout=900)
-        evaluated = 0
-        m = re.search(r"evaluated=(\d+)", p.stdout)
-        if m:
-            evaluated = int(m.group(1))
+        env2 = dict(os.environ)
+        env2["SEARCH_BUDGET_SECS"] = "25" if tier == "quick" else "120"
+        seeds = [seed] if tier == "quick" else [seed, seed + 1, seed + 2]
+        p = None
+        total = 0
+        for sd in seeds:
+            p = subprocess.run([exe, prop, str(sd)], capture_output=True, text=True, timeout=900, env=env2)
+            mm = re.search(r"evaluated=(\d+)", p.stdout)
+            total += int(mm.group(1)) if mm else 0
+            if "FOUND " in p.stdout or "NONE" not in p.stdout:
+                break
+        evaluated = total
         for ln in p.stdout.split("\n"):
             if ln.startswith("FOUND "):
                 return {"input": json.loads(ln[6:]), "evaluated": evaluated, "note": "bounded-exhaustive / seeded search over small and structured inputs against the real crate, oracle written from the property text"}
